@@ -803,8 +803,9 @@ pub fn apply_ex(orig: &WPacket, site: &Site, t: &mut Tape, out_w: &mut Option<WP
             match site.entry {
                 Entry::NonUtf8 => {
                     // several shapes of ill-formed UTF-8 (MQTT 1.5.4: also surrogates and overlong forms)
-                    let shapes: [&[u8]; 8] = [&[0xFF], &[0x80], &[0xC3], &[0xE2, 0x82], &[0xED, 0xA0, 0x80], &[0xC0, 0x80], &[0xF4, 0x90, 0x80, 0x80], &[0xF0, 0x9F, 0x98]];
-                    let k = t.weighted(&[4, 1, 1, 1, 1, 1, 1, 1]);
+                    let shapes: [&[u8]; 10] = [&[0xFF], &[0x80], &[0xC3], &[0xE2, 0x82], &[0xED, 0xA0, 0x80], &[0xC0, 0x80], &[0xF4, 0x90, 0x80, 0x80], &[0xF0, 0x9F, 0x98], &[0xED, 0xA0, 0xBD, 0xED, 0xB8, 0x80], &[0xED, 0xAF, 0xBF, 0xED, 0xBF, 0xBF]];
+                    // (the last two: a well-formed pair of encoded surrogates, CESU-8 / Java modified UTF-8)
+                    let k = t.weighted(&[4, 1, 1, 1, 1, 1, 1, 1, 1, 1]);
                     let shape = shapes[k];
                     let how = if f.is_empty() || k >= 2 {
                         // truncated / ill-formed sequence at the end of the string (or spliced at a boundary)
